@@ -92,6 +92,11 @@ _c("C12", "proggen",
    "Generated-input search: ~2.5k (quick) / ~30k (thorough) enums (discriminant patterns incl. constant expressions, variants with fields interleaved, every integer repr alone or with other hints, generics); for 8/16-bit reprs every integer is tried, for wider ones discriminants +-1, extremes, 0 and 6000 seeded values: Ok iff the discriminant of a field-less variant (tag re-read equals n), else Err carrying n. Exploration; exhaustive per generated enum only over the 8/16-bit input domain.",
    "u128 discriminants kept within 0..=i128::MAX; the tag of enums with fields is read only under a primitive repr")
 
+_c("C20", "matrix",
+   "configuration-matrix testing: seeded proptest-drawn feature sets of the facade crate are evaluated by running cargo on a content-synchronised mirror of the tree: cargo check of both crates, a generated import-probe crate whose unresolved-item set is compared with a documented feature-to-item table, and the repository's own test programs selected by required-features",
+   "Exploration over configurations. Quick: every derive feature alone (std state rotating; two consecutive seeds cover all 48 single configurations), 10 rotating pairs, one larger subset, plus `full` without std. Thorough: exhaustive over all 48 single configurations, `full` with and without std, all 552 pair configurations in seeded order and ~100 random subsets of 3-12 features within a 30 min budget. For each configuration error-free builds of both crates, exact equality of the exposed items against the table (301 probes) and passing test programs are asserted; the evidence lists each configuration run.",
+   "builds are judged on errors only (no -D warnings: the installed rustc is newer than the pinned toolchain); compile_fail (trybuild) excluded; only the host target is built")
+
 NOT_YET = {}
 
 def main():
@@ -129,6 +134,8 @@ def main():
             {"name": "inproc", "path": "harness/src/v/dm.rs", "kind_free_text": "working-tree expanders and parsers compiled into the harness via #[path]; proptest-driven generation, catch_unwind, manual shrinking"},
             {"name": "fmtref", "path": "fmtref/src/main.rs", "kind_free_text": "rustc_parse_format (nightly, rustc_private) as reference parser service"},
             {"name": "proggen", "path": "harness/src/v/proggen.rs", "kind_free_text": "generated crates compiled by the real proc-macro from the working tree; rustc verdicts + run-time oracles inside the generated program"},
+            {"name": "matrix", "path": "harness/src/v/p20.rs", "kind_free_text": "cargo runs over generated feature sets on the mirror of the tree"},
+            {"name": "fuzz", "path": "fuzz/", "kind_free_text": "cargo-fuzz/libFuzzer targets (fmt_literal, expr_split, expand_any) linking the harness library; thorough tiers of C03, C16, C18"},
         ],
         "checks": checks,
         "not_applicable": na,
